@@ -153,7 +153,7 @@ let () = register "tgcred" (fun args ->
       let s = { sc_hint = field shint; sc_key = field skey; sc_ids = table2 sids; sc_snis = table3 ssni } in
       let m = tg_creds_match c s in
       let (sni, cc, sk) =
-        match tg_server_sni s c.cc_sni with
+        match tg_server_sni s (tg_sni_sent c.cc_sni) with
         | None -> ("reject", "-", "-")
         | Some (h, k0) ->
             let hs = tg_hint_seen h in
@@ -260,3 +260,20 @@ let () = register "tgt" (fun args ->
         go s0 0 trs
       end
   | _ -> "ERROR tgt args")
+
+
+(* tgsni <ssni table> name name ...   (names hex, "." = no SNI): the per-context SNI cache of
+   post_client_hello_gnutls_psk over a history of handshakes -> per name "miss" (callback asked)
+   or "hit", and ":1"/":0" whether credentials were found *)
+let () = register "tgsni" (fun args ->
+  match args with
+  | tb :: names ->
+      let table = match table3 tb with Some t -> t | None -> [] in
+      let cache = ref [] in
+      String.concat " " (List.map (fun n ->
+        let name = (match tg_sni_sent (if n = "." then None else Some (field n)) with Some x -> x | None -> []) in
+        let hit = (tg_lookup_ci name !cache <> None) in
+        let (r, c') = tg_sni_cached !cache table name in
+        cache := c';
+        Printf.sprintf "%s:%d" (if hit then "hit" else "miss") (if r = None then 0 else 1)) names)
+  | _ -> "ERROR tgsni args")
